@@ -178,9 +178,28 @@ Definition unquote (s : string) : option string :=
   | EmptyString => None
   end.
 
-(* SequenceID.UnmarshalJSON: a JSON string is unwrapped, anything else is parsed as it stands *)
+(* JSON insignificant whitespace (encoding/json skips it around the value) *)
+Definition is_ws (c : ascii) : bool :=
+  (Ascii.eqb c " " || Ascii.eqb c "009" || Ascii.eqb c "010" || Ascii.eqb c "013")%bool.
+Fixpoint ltrim (s : string) : string :=
+  match s with
+  | String c r => if is_ws c then ltrim r else s
+  | EmptyString => EmptyString
+  end.
+Fixpoint rtrim (s : string) : string :=
+  match s with
+  | EmptyString => EmptyString
+  | String c r => match rtrim r with
+                  | EmptyString => if is_ws c then EmptyString else String c EmptyString
+                  | r' => String c r'
+                  end
+  end.
+Definition trim_ws (s : string) : string := rtrim (ltrim s).
+
+(* SequenceID.UnmarshalJSON: a JSON string (possibly surrounded by whitespace) is unwrapped, anything else is
+   parsed as it stands *)
 Definition unmarshal (data : string) : presult :=
-  match unquote data with
+  match unquote (trim_ws data) with
   | Some raw => parse raw
   | None => parse data
   end.
